@@ -37,18 +37,24 @@ theorem generateWork_err (cfg : Cfg) (forest : List Node) (anc : List Anc) (dept
 
 theorem runOne_nondir (cfg : Cfg) (w : Work) (c : List Anc → Nat → Path → Option Nat → List Out)
     (h : w.view.isDir = false) : runOne cfg w c = [.entry w.path] := by
-  unfold runOne
+  unfold runOne enterDir
   cases hv : w.view <;> simp_all [View.isDir]
+
+theorem enterDir_dir (cfg : Cfg) (p : Path) (depth : Nat) (d : DirView) (via : Bool) (anc : List Anc)
+    (rd : Option Nat) :
+    enterDir cfg { path := p, depth := depth, view := .dir d via, anc := anc, rootDev := rd } =
+      if devOk rd d.dev && depthOk cfg depth then some ((d.ino, d.ign) :: anc) else none := by
+  unfold enterDir
+  simp only []
+  cases h1 : devOk rd d.dev <;> cases h2 : depthOk cfg depth <;> simp
 
 theorem runOne_dir (cfg : Cfg) (p : Path) (depth : Nat) (d : DirView) (via : Bool) (anc : List Anc)
     (rd : Option Nat) (c : List Anc → Nat → Path → Option Nat → List Out) :
     runOne cfg { path := p, depth := depth, view := .dir d via, anc := anc, rootDev := rd } c =
       .entry p :: (if devOk rd d.dev && depthOk cfg depth then c ((d.ino, d.ign) :: anc) depth p rd else []) := by
-  unfold runOne devOk depthOk
-  cases rd <;> cases hm : cfg.maxDepth <;> simp
-  all_goals
-    repeat' split
-    all_goals first | rfl | (exfalso; omega) | simp_all
+  unfold runOne
+  rw [enterDir_dir]
+  cases devOk rd d.dev && depthOk cfg depth <;> simp
 
 theorem followEntry_nolink (cfg : Cfg) (forest : List Node) (is : List Nat) (p : Path) (k : Node)
     (h : (lstat k).isSymlink = false) : followEntry cfg forest is p k = .ok (lstat k) := by
